@@ -40,7 +40,8 @@ Holds(e) ==
 
 Init == l = 1 /\ bad = 0
 Step == /\ l <= Len(TraceLog) /\ l' = l + 1
-        /\ bad' = IF Holds(Ev) THEN bad ELSE l
+        \* every event that does not hold is reported (a configuration without the invariant sees all of them)
+        /\ bad' = IF Holds(Ev) THEN bad ELSE (IF PrintT(<<"VHBAD", l>>) THEN l ELSE l)
 Spec == Init /\ [][Step]_vars
 
 Exact == bad = 0
